@@ -924,8 +924,6 @@ def inline_calls(pkg: Package, t: Term, depth: int = 2) -> Term:
     def fn(x):
         if x[0] == "call" and isinstance(x[1], str) and x[1] in pkg.functions:
             fi = pkg.functions[x[1]]
-            if fi.cls is not None:
-                return None
             try:
                 ci = interp(pkg, fi.qual)
             except Exception:  # noqa
@@ -934,6 +932,9 @@ def inline_calls(pkg: Package, t: Term, depth: int = 2) -> Term:
                 return None
             params = fi.params
             bind = {}
+            if fi.cls is not None and params and ci.selfname == params[0]:
+                bind[("sym", params[0])] = ("sym", "self")      # method called on the caller's own instance
+                params = params[1:]
             for k, a in enumerate(x[2]):
                 if k < len(params):
                     bind[("sym", params[k])] = a
